@@ -73,9 +73,12 @@ ASSUMPTIONS = [
     "up to the limit), or because a connection was aborted while being set up (ECONNABORTED, EPROTO) - is IN scope: "
     "operation `E`, injected through a wrapper around the server's listener (the real thing needs the process to run out of "
     "descriptors: fixes/demo_C16_accept_error_kills_server.py part 2), obligation accept_survives_transient_errors, theorems "
-    "accept_fault_changes_nothing / run_ignores_accept_faults.  What else fails when a process is out of descriptors, "
-    "memory, threads or processes (`spawn()` / `os.fork()` failing in `_accept_method` propagate out of the accept loop) is "
-    "out of scope; so is latency (the 0.2 s sleeps of the pool's catch-alls under a stream of undecodable frames)",
+    "accept_fault_changes_nothing / run_ignores_accept_faults.  Likewise a newcomer for which no thread / child process can be "
+    "started (`spawn()` RuntimeError, `os.fork()` EAGAIN: operation `f<k>`, injected by patching `rpyc.utils.server.spawn` / "
+    "`os.fork` in the server process at run time; obligation spawn_failure_turns_client_away, theorem "
+    "spawn_failure_turns_one_client_away), and a server process that already holds about a thousand descriptors, so that "
+    "its clients' sockets get numbers beyond select()'s 1024 (case option \"hifd\": invisible to the model).  What else fails "
+    "when a process is out of descriptors or memory is out of scope; so is latency (the 0.2 s sleeps of the pool's catch-alls under a stream of undecodable frames)",
     "`dict(self.protocol_config, ...)` is a shallow copy: mutable VALUES of a user-supplied protocol_config would be shared "
     "between connections; the harness's configurations have none",
     "a pool has at least one worker thread; server kinds of the quantifier: threaded, pool, forking",
@@ -689,7 +692,7 @@ def oracle_case(case, known=(), ceiling=servers.CEILING):
                 continue
             if t == "c" and obs != "ok":
                 return (where + "a well-behaved client could not connect: %s%s"
-                        % (obs, " (after an error from accept())" if faulted else ""),
+                        % (obs, " (after an error from accept() or a failed spawn()/fork())" if faulted else ""),
                         "C16:%s:%s" % (kind, "accept-or-spawn-error-closes-server" if faulted else "not-accepting"))
             if t in "plodumw":
                 want = dict(p=("pong",), l=("ref",), o=("keyerr", "resolved"), d=("done",), u=("pong",), m=("done",),
@@ -732,7 +735,7 @@ def oracle_case(case, known=(), ceiling=servers.CEILING):
         snap = sess.backend.snapshot()
         if not snap["A"] or not snap["L"]:
             return ("at the end: accept loop alive=%s listener open=%s%s"
-                    % (snap["A"], snap["L"], " (after an error from accept())" if faulted else ""),
+                    % (snap["A"], snap["L"], " (after an error from accept() or a failed spawn()/fork())" if faulted else ""),
                     "C16:%s:%s" % (kind, "accept-or-spawn-error-closes-server" if faulted else "accept-dead"))
         excuse = None
         if kind == "pool" and len(holding | in_hook) >= case["nb"]:
